@@ -245,4 +245,168 @@ theorem mutate_delivered (E : Env) (st : St) (m : Mutation) :
     · exact ⟨by rw [(runCont_delivered E st _ c _ d hd).1]; rfl, (runCont_delivered E st _ c _ d hd).2⟩
     · simp [skip] at hd
 
+/-! ### dead weak references -/
+
+/-- Every notifier of the list has a collected target or handler owner. -/
+def AllDead (E : Env) (ns : List Notifier) : Prop := ∀ n ∈ ns, E.dead (NKey.hkey n.key) = true
+
+theorem callTrait_allDead (E : Env) (h : Heap) (o : Id) (n : Name) (old new : Val) :
+    ∀ (ns : List Notifier) (H : Hooks) (ds : List Delivered), AllDead E ns →
+      callTrait E h o n old new ns H ds = (H, ds, none) := by
+  intro ns
+  induction ns with
+  | nil => intro H ds _; rfl
+  | cons nt ns ih =>
+    intro H ds hall
+    have hnt := hall nt (List.mem_cons_self ..)
+    have hrest : AllDead E ns := fun n' hn' => hall n' (List.mem_cons_of_mem _ hn')
+    cases nt with
+    | user k rc =>
+      simp only [Notifier.key, NKey.hkey] at hnt
+      simp only [callTrait, hnt, Bool.true_or, if_true]
+      exact ih H ds hrest
+    | maint mk g k =>
+      simp only [Notifier.key, NKey.hkey] at hnt
+      simp only [callTrait, hnt, if_true]
+      exact ih H ds hrest
+
+theorem notifyCont_allDead (E : Env) (h : Heap) (c : Id) (ev : CEvent) (H : Hooks)
+    (hall : AllDead E (H.get (.cont c))) :
+    ∀ (fuel i : Nat) (ds : List Delivered), (H.get (.cont c)).length - i < fuel →
+      notifyCont E h c ev fuel i H ds = (H, ds, none) := by
+  intro fuel
+  induction fuel with
+  | zero => intro i ds hlt; omega
+  | succ fuel ih =>
+    intro i ds hlt
+    simp only [notifyCont]
+    cases hg : (H.get (.cont c))[i]? with
+    | none => rfl
+    | some nt =>
+      have hi : i < (H.get (.cont c)).length := by
+        rcases Nat.lt_or_ge i (H.get (.cont c)).length with h1 | h1
+        · exact h1
+        · rw [List.getElem?_eq_none h1] at hg; cases hg
+      have hm : nt ∈ H.get (.cont c) := List.mem_of_getElem? hg
+      have hnt := hall nt hm
+      cases nt with
+      | user k rc =>
+        simp only [Notifier.key, NKey.hkey] at hnt
+        simp only [hnt, if_true]
+        exact ih (i + 1) ds (by omega)
+      | maint mk g k =>
+        simp only [Notifier.key, NKey.hkey] at hnt
+        simp only [hnt, if_true]
+        exact ih (i + 1) ds (by omega)
+
+theorem runCont_allDead (E : Env) (st : St) (h' : Heap) (c : Id) (ev : Option CEvent)
+    (hall : ∀ o, AllDead E (st.H.get o)) : runCont E st h' c ev = ⟨⟨h', st.H⟩, [], none⟩ := by
+  cases ev with
+  | none => rfl
+  | some ev =>
+    simp only [runCont]
+    rw [notifyCont_allDead E h' c ev st.H (hall _) _ 0 [] (by omega)]
+
+theorem fire_allDead (E : Env) (H : Hooks) (h' : Heap) (o : Id) (n : Name) (old new : Val)
+    (hall : ∀ o, AllDead E (H.get o)) : fire E H h' o n old new = ⟨⟨h', H⟩, [], none⟩ := by
+  simp only [fire]
+  rw [callTrait_allDead E h' o n old new _ H [] (hall _)]
+
+/-- With every notifier's weak reference dead, a mutation changes the heap only:
+nothing is delivered, nothing raised, no hook touched. -/
+theorem mutate_allDead (E : Env) (st : St) (m : Mutation) (hall : ∀ o, AllDead E (st.H.get o)) :
+    (mutate E st m).delivered = [] ∧ (mutate E st m).st.H = st.H ∧
+      ((mutate E st m).err = none ∨ mutate E st m = skip st) := by
+  cases m with
+  | alloc i o => simp [mutate]
+  | setField o n v fresh =>
+    simp only [mutate]
+    split
+    · split
+      · simp [skip]
+      · split
+        · simp
+        · split
+          · simp
+          · rw [fire_allDead E st.H _ o n _ v hall]; simp
+    · simp [skip]
+  | read o n fresh =>
+    simp only [mutate]
+    split
+    · split
+      · simp [skip]
+      · split
+        · rw [fire_allDead E st.H _ o n _ _ hall]; simp
+        · simp
+    · simp [skip]
+  | addTrait o n tagged dflt =>
+    simp only [mutate]
+    split
+    · split
+      · simp
+      · rw [fire_allDead E st.H _ o _ _ _ hall]; simp
+    · simp [skip]
+  | listAppend c x =>
+    simp only [mutate]; split
+    · rw [runCont_allDead E st _ c _ hall]; simp
+    · simp [skip]
+  | listInsert c i x =>
+    simp only [mutate]; split
+    · split
+      · rw [runCont_allDead E st _ c _ hall]; simp
+      · simp [skip]
+    · simp [skip]
+  | listDel c i =>
+    simp only [mutate]; split
+    · split
+      · rw [runCont_allDead E st _ c _ hall]; simp
+      · simp [skip]
+    · simp [skip]
+  | listSet c i x =>
+    simp only [mutate]; split
+    · split
+      · rw [runCont_allDead E st _ c _ hall]; simp
+      · simp [skip]
+    · simp [skip]
+  | listClear c =>
+    simp only [mutate]; split
+    · rw [runCont_allDead E st _ c _ hall]; simp
+    · simp [skip]
+  | listExtend c xs =>
+    simp only [mutate]; split
+    · rw [runCont_allDead E st _ c _ hall]; simp
+    · simp [skip]
+  | dictSet c k x =>
+    simp only [mutate]; split
+    · split
+      · rw [runCont_allDead E st _ c _ hall]; simp
+      · rw [runCont_allDead E st _ c _ hall]; simp
+    · simp [skip]
+  | dictDel c k =>
+    simp only [mutate]; split
+    · split
+      · rw [runCont_allDead E st _ c _ hall]; simp
+      · simp [skip]
+    · simp [skip]
+  | dictClear c =>
+    simp only [mutate]; split
+    · rw [runCont_allDead E st _ c _ hall]; simp
+    · simp [skip]
+  | setAdd c x =>
+    simp only [mutate]; split
+    · split
+      · simp
+      · rw [runCont_allDead E st _ c _ hall]; simp
+    · simp [skip]
+  | setDiscard c x =>
+    simp only [mutate]; split
+    · split
+      · rw [runCont_allDead E st _ c _ hall]; simp
+      · simp
+    · simp [skip]
+  | setClear c =>
+    simp only [mutate]; split
+    · rw [runCont_allDead E st _ c _ hall]; simp
+    · simp [skip]
+
 end TraitsVerif.Model.Obs
